@@ -641,11 +641,11 @@ def node_json(node, nodespec=None, classes=None):
                     'readonly': bool(aobj.readonly),
                     'constant': None if aobj.constant is None else canon(aobj.constant),
                     'value': canon(aobj.value), 'readerror': readerror_json(aobj),
-                    'checks': check_chain(mycls, attr),
+                    'checks': check_chain(mycls, attr) if ms is not None else [],
                     'hasRead': getattr(mycls, 'read_' + attr, None) is not None,
                     'hasWrite': getattr(mycls, 'write_' + attr, None) is not None,
                     'datainfo': canonj(aobj.datatype.export_datatype()),
-                    'props': props_json(aobj, ('datainfo', 'constant')),
+                    'props': props_json(aobj, ('datainfo', 'constant', 'readonly')),
                 })
             elif isinstance(aobj, Command):
                 accs.append({
